@@ -37,7 +37,8 @@ func files(ext string, helpers bool) map[string]string {
 		"views/v2/readme.txt":        `not a template {{`,
 	}
 	if helpers {
-		f["helpers/h"+ext] = `{{define "h"}}H[{{.}}]{{end}}`
+		f["helpers/h"+ext] = `{{define "h"}}H[{{.}}]{{template "h2" .}}{{end}}`
+		f["helpers/sub/h2"+ext] = `{{define "h2"}}(h2){{end}}`
 	} else {
 		// without helpers the layouts must define h themselves
 		f["layouts/default/h"+ext] = `{{define "h"}}H-layout{{end}}`
@@ -278,6 +279,49 @@ func runSequence(cfg Config, reqs []Request) (outs []string, f *finding) {
 	return
 }
 
+// faultThenRetry: the k-th ReadFile/ReadDir/IsDir of the first request fails; the request is then
+// repeated on the same provider with a healthy filespace. Whatever the first call returned, the
+// second must be equivalent to the reference (asking twice gives equivalent templates; the cache
+// must not keep a half-built template).
+func faultThenRetry(cfg Config, r Request, k int) (calls int, f *finding) {
+	res := fsx.RunSeq(func() {
+		in := &fsx.Injector{Fail: map[int]bool{k: true}}
+		ffs := &fsx.FaultFS{Inner: newFS(cfg), In: in, Tag: "fs"}
+		p := newProvider(cfg, ffs)
+		ex1, err1 := p.do(r)
+		calls = in.N
+		if k == 0 || len(in.Hits) == 0 {
+			return
+		}
+		in.Fail = map[int]bool{}
+		wantOut, wantNames := reference(cfg, r)
+		if err1 == nil {
+			// a bool query answered "false" can legitimately hide a directory for this one call; an
+			// error-returning call that failed must not yield a template that renders differently
+			if out, _ := ex1.render(); out != wantOut && !strings.Contains(in.Hits[0], ".Is") {
+				f = &finding{"fault-ignored/" + r.Kind, "a failing template file is reported, not silently skipped", fmt.Sprintf("config %+v %s: call %s failed but the request succeeded and renders %q (reference %q)", cfg, r, in.Hits[0], out, wantOut)}
+				return
+			}
+		}
+		ex2, err2 := p.do(r)
+		if err2 != nil {
+			f = &finding{"retry-fails/" + r.Kind, "asking twice gives equivalent templates", fmt.Sprintf("config %+v %s: after a failure at %s the same request on a healthy filespace fails: %v", cfg, r, in.Hits[0], err2)}
+			return
+		}
+		out, names := ex2.render()
+		if err1 == nil && strings.Contains(in.Hits[0], ".Is") && cfg.Cached {
+			return // the first (successful) answer without the hidden directory may be cached: unspecified
+		}
+		if out != wantOut || names != wantNames {
+			f = &finding{"half-built-template-cached/" + r.Kind, "asking twice gives equivalent templates; the result is the same with caching on or off", fmt.Sprintf("config %+v %s: after a failure at %s the retried request renders %q with {%s}, the reference renders %q with {%s}", cfg, r, in.Hits[0], out, names, wantOut, wantNames)}
+		}
+	})
+	if f == nil && len(res.Panics) > 0 {
+		f = &finding{"panic", "no call crashes the process", res.Panics[0].Value}
+	}
+	return
+}
+
 // ---- concurrent first use ----
 
 // Spec of a concurrent program.
@@ -444,6 +488,31 @@ func run(c *fw.Ctx) {
 			}
 		}
 	}
+	// every failing filespace call during a first request, then the request again
+	for _, html := range []bool{true, false} {
+		for _, cached := range []bool{true, false} {
+			cfg := Config{HTML: html, Cached: cached, Helpers: true}
+			for _, r := range requestPool {
+				item++
+				if !c.Mine(item) {
+					continue
+				}
+				n, _ := faultThenRetry(cfg, r, 0)
+				for k := 1; k <= n; k++ {
+					c.R.Evaluations++
+					c.Count("fault_positions", 1)
+					if _, f := faultThenRetry(cfg, r, k); f != nil {
+						if cached {
+							f.kind += "/cached"
+						} else {
+							f.kind += "/uncached"
+						}
+						report(f, map[string]interface{}{"fault": map[string]interface{}{"config": cfg, "request": r, "k": k}})
+					}
+				}
+			}
+		}
+	}
 	// concurrent first use
 	ps := programs(c.Thorough())
 	c.R.Info["concurrent_programs"] = len(ps)
@@ -467,12 +536,23 @@ func run(c *fw.Ctx) {
 
 func replay(wj json.RawMessage) (*fw.Violation, error) {
 	var w struct {
-		Seq     *seqWit `json:"seq"`
-		Spec    Spec    `json:"spec"`
-		Choices []int   `json:"choices"`
+		Seq   *seqWit `json:"seq"`
+		Fault *struct {
+			Config  Config  `json:"config"`
+			Request Request `json:"request"`
+			K       int     `json:"k"`
+		} `json:"fault"`
+		Spec    Spec  `json:"spec"`
+		Choices []int `json:"choices"`
 	}
 	if err := json.Unmarshal(wj, &w); err != nil {
 		return nil, err
+	}
+	if w.Fault != nil {
+		if _, f := faultThenRetry(w.Fault.Config, w.Fault.Request, w.Fault.K); f != nil {
+			return &fw.Violation{Property: "C19", Clause: f.clause, Signature: "C19/" + f.kind, Detail: f.detail}, nil
+		}
+		return nil, nil
 	}
 	if w.Seq != nil {
 		_, f := runSequence(w.Seq.Config, w.Seq.Requests)
@@ -492,7 +572,7 @@ func replay(wj json.RawMessage) (*fw.Violation, error) {
 
 func init() {
 	fw.Register(&fw.Check{ID: "C19", Level: "model_checking",
-		Rule: "sequential: every sequence of <=3 requests from {Base, Layout(default|alt|''), View(default,v1|v2), View(alt,v1), View('',v2), View(default,missing)} x {HTML, text provider} x {helpers present, absent} x {cached, uncached}, each result rendered and compared (output of template 'page' and the set of defined template names) with a reference built directly on html/template / text/template (helpers, then layout files, then view files), and cached vs uncached outputs compared position by position; concurrent: 36 programs of 2-3 threads issuing first requests (same view, different views, view + layout, base + view, two requests per thread) under every schedule with <= bound preemptions with a happens-before state cache, callers' renderings compared with the reference and the race oracle applied to the providers' cache maps and fields. states = distinct schedule traces (concurrent part)",
+		Rule: "sequential: every sequence of <=3 requests from {Base, Layout(default|alt|''), View(default,v1|v2), View(alt,v1), View('',v2), View(default,missing)} x {HTML, text provider} x {helpers present, absent} x {cached, uncached}, each result rendered and compared (output of template 'page' and the set of defined template names) with a reference built directly on html/template / text/template (helpers, then layout files, then view files), and cached vs uncached outputs compared position by position; fault: every failing filespace call (ReadFile/ReadDir/IsDir...) during a first request followed by the same request on the healthy filespace; concurrent: 36 programs of 2-3 threads issuing first requests (same view, different views, view + layout, base + view, two requests per thread) under every schedule with <= bound preemptions with a happens-before state cache, callers' renderings compared with the reference and the race oracle applied to the providers' cache maps and fields. states = distinct schedule traces (concurrent part)",
 		Run: run, Replay: replay,
 		Assumptions: []string{"one file set with overlapping definitions on every layer; walk order = sorted paths", "2-3 threads; bounds as reported; a racing map read/write is what makes Go abort with 'concurrent map read and map write', which the race oracle decides deterministically"}})
 }
